@@ -150,14 +150,16 @@ func durTables(k int, rng *rand.Rand, thorough bool) []*durTable {
 		return []*durTable{mk("longms/above", true, ms), mk("longspread/below", false, spread)}
 	}
 	base := map[string][]time.Duration{
-		"ms":   {time.Millisecond, 2 * time.Millisecond, 5 * time.Millisecond, time.Second, time.Minute, time.Hour},
+		"ms": {time.Millisecond, 2 * time.Millisecond, 5 * time.Millisecond, time.Second, time.Minute, time.Hour},
+		// bounds of a minute and more (Go duration syntax switches to 1m0s / 1h0m0s)
+		"min":  {30 * time.Second, time.Minute, 90 * time.Second, time.Hour, 6 * time.Hour, 24 * time.Hour},
 		"neg":  {-5 * time.Second, -2, 0, 2, 4, time.Second},
 		"huge": {math.MinInt64 + 2, -4, 4, math.MaxInt64 - 6, math.MaxInt64 - 4, math.MaxInt64 - 2},
 		// bounds whose value in seconds is not exactly representable / where d.Seconds() and float64(d)/1e9 differ by an ulp,
 		// and one beyond 2^53 ns where a float64 of nanoseconds loses the last unit
 		"fsec": {1128 * time.Millisecond, 1140 * time.Millisecond, 1265 * time.Millisecond, 1386 * time.Millisecond, 365 * 24 * time.Hour, 365*24*time.Hour + 2},
 	}
-	for _, n := range []string{"ms", "neg", "huge", "fsec"} {
+	for _, n := range []string{"ms", "neg", "huge", "fsec", "min"} {
 		out = append(out, mk(n+"/above", true, base[n]), mk(n+"/below", false, base[n]))
 	}
 	nr := 1
